@@ -9,6 +9,8 @@ from . import products as P
 from .c06 import histories
 
 PROP = "C07"
+# schedules tried after the restart: fair round robin, sync loop first (events taken in late), remote events first
+RESTART_ORDERS = (("IL", "IR", "S"), ("S", "S", "IL", "IR"), ("IR", "S", "IL", "S"))
 
 
 class D(Driver):
@@ -44,7 +46,7 @@ DRIVER = D()
 
 def jobs(tier):
     out = []
-    cfgs = ["oo", "po"] if tier == "quick" else ["oo", "po", "ci", "pp", "op"]
+    cfgs = ["oo", "po", "op", "pp"] if tier == "quick" else ["oo", "po", "op", "pp", "ci", "pci"]
     hs = histories()
     for cfg in cfgs:
         for i, sc in enumerate(hs):
@@ -89,7 +91,9 @@ def run_job(job):
         return _result(job, 1, len(hist), 1, {}, "base-fails (see C01/C02)", hist)
     one_sided = not (job["scripts"][0] and job["scripts"][1])
     plans = [("storage", k) for k in range(1, W_s + 1)] + [("provider", k) for k in range(1, W_p + 1)]
-    for plan in plans:
+    plans = [(kind, k, order) for (kind, k) in plans for order in RESTART_ORDERS]
+    for plan3 in plans:
+        plan, order = plan3[:2], plan3[2]
         w = drv.make_world(job)
         try:
             w.nsw = w.npw = 0
@@ -107,7 +111,7 @@ def run_job(job):
             w.restart("intact")
             bad = None
             try:
-                w.settle(limit=150)
+                w.settle(limit=150, order=order)
             except NoQuiescence:
                 bad = ("noquiesce", {})
             if bad is None:
@@ -122,8 +126,10 @@ def run_job(job):
                 sig = "%s:%s:%s" % (plan[0], bad[0], digest(json.dumps(bad[1], sort_keys=True, default=repr)))
                 if sig not in vs:
                     vs[sig] = viol("crash-" + bad[0].split(":")[0], sig,
-                                   {"plan": list(plan), "died_in_action": at, "base_hist": hist, "observed": bad[1]})
-                    vs[sig]["hist"] = hist[:at + 1] + ["CRASH(%s #%d)" % plan, "OFFLINE-USER-OPS", "RESTART", "SETTLE"]
+                                   {"plan": list(plan), "died_in_action": at, "base_hist": hist, "observed": bad[1],
+                                    "restart_order": list(order)})
+                    vs[sig]["hist"] = hist[:at + 1] + ["CRASH(%s #%d)" % plan, "OFFLINE-USER-OPS", "RESTART",
+                                                      "SETTLE(%s)" % ",".join(order)]
         finally:
             w.close()
     vs.pop("plan-not-reached", None) if False else None
